@@ -1,30 +1,98 @@
-(* Property C13 — statements; see DESIGN.md §6 C13.  The model-level refinement
-   theorems are being proved in Proofs/TapeProofs.v / Proofs/AcceptProofs.v;
-   until they are in, this file carries the full statement as a definition,
-   the tie obligations the statement rests on, and the property is decided on
-   every run by the correspondence described in DESIGN.md. *)
-From SJ Require Import Model.Base Model.RefTables Spec.Json Spec.EditSpec Model.Driver Model.Tape Model.Iter Model.Walk Model.Edit Model.WF Tie.GoTablesTie.
+(* Property C13 — in-place replacement changes exactly the addressed value.
+   Theorems about the model of the Set* API (Model/Edit.v) against the abstract
+   replacement on documents (Spec/EditSpec.v).  [positioned]/[iter_on] say that
+   the iterator stands on the value whose tape segment is [sub] at abstract
+   path [p]; [roots_seg ... ds2] is the structural well-formedness of the new
+   tape (it implies wf_check and is what the next operation needs), so the
+   statements compose over any sequence of operations. *)
+From SJ Require Import Model.Base Model.RefTables Spec.Json Spec.EditSpec Model.Driver Model.Tape Model.Iter Model.Walk Model.Edit Model.WF
+     Proofs.TapeBase Proofs.TapeSeg Proofs.TapePath Proofs.TapeEdit Proofs.TapeDelete Proofs.TapeProofs Tie.GoTablesTie.
 Open Scope N_scope.
 
-(* full statement: any sequence of Set* calls at value positions refines the
-   abstract replacement on documents and keeps the tape well-formed *)
-Definition C13_step (op : pjson -> iter -> outcome (pjson * iter)) (f : doc -> option doc) : Prop :=
-  forall pj i p ds,
-    wf_check true pj = true ->
-    denote (pj_msg pj) (pj_strings pj) (pj_tape pj) = Some ds ->
-    (* i is positioned on the value at abstract path p *)
-    get_docs p ds <> None ->
-    match op pj i with
-    | Ok (pj', _) => wf_check true pj' = true /\
-                     option_map Some (upd_docs p f ds) = Some (denote (pj_msg pj') (pj_strings pj') (pj_tape pj'))
-    | Err => True
-    | _ => False
-    end.
+(* SetFloat (SetInt, SetUInt alike): allowed exactly on numbers and strings;
+   then the new tape is the old one with the two words replaced, and it denotes
+   the old document with exactly the value at p replaced; otherwise an error
+   and the abstract operation refuses too (nothing changes). *)
+Theorem C13_set_float_refines : forall (strict adj : bool) pj it bits pre sub post p ds dsub,
+  pj_tape pj = pre ++ sub ++ post ->
+  val_seg (pj_msg pj) (pj_strings pj) strict adj (nlen pre) sub dsub ->
+  index_path (pj_msg pj) (pj_strings pj) strict adj (pj_tape pj) (nlen pre) p ->
+  denote (pj_msg pj) (pj_strings pj) (pj_tape pj) = Some ds ->
+  iter_on it (nlen pre) sub ->
+  match set_float pj it bits with
+  | Ok (pj', _) =>
+      is_numstr_doc dsub = true /\
+      pj' = with_tape pj (pre ++ [mk_word TagFloat 0; bits] ++ post) /\
+      denote (pj_msg pj') (pj_strings pj') (pj_tape pj') = upd_docs p (abs_set_scalar (DNum (NFloat bits 0))) ds /\
+      (exists ds2, upd_docs p (abs_set_scalar (DNum (NFloat bits 0))) ds = Some ds2 /\
+                   roots_seg (pj_msg pj') (pj_strings pj') strict adj 0 (pj_tape pj') ds2)
+  | Err => is_numstr_doc dsub = false /\ upd_docs p (abs_set_scalar (DNum (NFloat bits 0))) ds = None
+  | _ => False
+  end.
+Proof. exact set_float_refines. Qed.
 
-Theorem C13_tie_tags :
-  gen.Consts.gen_TagNull = TagNull /\ gen.Consts.gen_TagNop = TagNop /\ gen.Consts.gen_TagString = TagString /\
-  gen.Consts.gen_TagFloat = TagFloat /\ gen.Consts.gen_TagInteger = TagInteger /\ gen.Consts.gen_TagUint = TagUint.
-Proof. destruct tie_tags as (A & B & C & D & E & _ & _ & _ & _ & _ & _ & _ & M & _). repeat split; assumption. Qed.
+Definition C13_set_int_refines := set_int_refines.
+Definition C13_set_uint_refines := set_uint_refines.
+Definition C13_set_bool_refines := set_bool_refines.
+
+(* SetString: the string buffer only grows, every older string stays readable *)
+Theorem C13_set_string_refines : forall (strict adj : bool) pj it v pre sub post p ds dsub,
+  N.of_nat (length (pj_strings pj)) < STRINGBUFBIT ->
+  pj_tape pj = pre ++ sub ++ post ->
+  val_seg (pj_msg pj) (pj_strings pj) strict adj (nlen pre) sub dsub ->
+  index_path (pj_msg pj) (pj_strings pj) strict adj (pj_tape pj) (nlen pre) p ->
+  denote (pj_msg pj) (pj_strings pj) (pj_tape pj) = Some ds ->
+  iter_on it (nlen pre) sub ->
+  let cur := mk_word TagString (STRINGBUFBIT + N.of_nat (length (pj_strings pj))) in
+  match set_string pj it v with
+  | Ok (pj', _) =>
+      is_numstr_doc dsub = true /\
+      pj' = {| pj_tape := pre ++ [cur; N.of_nat (length v)] ++ post; pj_strings := pj_strings pj ++ v; pj_msg := pj_msg pj |} /\
+      denote (pj_msg pj') (pj_strings pj') (pj_tape pj') = upd_docs p (abs_set_scalar (DStr v)) ds /\
+      (exists ds2, upd_docs p (abs_set_scalar (DStr v)) ds = Some ds2 /\
+                   roots_seg (pj_msg pj') (pj_strings pj') strict adj 0 (pj_tape pj') ds2)
+  | Err => is_numstr_doc dsub = false /\ upd_docs p (abs_set_scalar (DStr v)) ds = None
+  | _ => False
+  end.
+Proof. exact set_string_refines. Qed.
+
+(* SetNull on any value position: atoms, two-word scalars (null + NOP|1) and
+   containers (null + NOP fill) *)
+Theorem C13_set_null_refines : forall (strict adj : bool) pj it pre sub post p ds dsub,
+  pj_tape pj = pre ++ sub ++ post ->
+  val_seg (pj_msg pj) (pj_strings pj) strict adj (nlen pre) sub dsub ->
+  index_path (pj_msg pj) (pj_strings pj) strict adj (pj_tape pj) (nlen pre) p ->
+  denote (pj_msg pj) (pj_strings pj) (pj_tape pj) = Some ds ->
+  iter_on it (nlen pre) sub ->
+  match set_null pj it with
+  | Ok (pj', _) =>
+      pj' = with_tape pj (pre ++ (mk_word TagNull 0 :: nop_fill (length sub - 1)) ++ post) /\
+      denote (pj_msg pj') (pj_strings pj') (pj_tape pj') = upd_docs p abs_set_null ds /\
+      (exists ds2, upd_docs p abs_set_null ds = Some ds2 /\
+                   roots_seg (pj_msg pj') (pj_strings pj') strict adj 0 (pj_tape pj') ds2)
+  | _ => False
+  end.
+Proof. exact set_null_refines. Qed.
+
+(* every abstract path of a well-formed tape has such a position, a position
+   has exactly one path and a path exactly one position *)
+Definition C13_position_of_path := position_of_path_ok.
+Definition C13_index_path_functional := Proofs.TapePathFun.index_path_functional.
+Definition C13_index_path_injective := Proofs.TapePathInj.index_path_inj.
+
+(* and every read path then reflects the new document: traversal = denotation
+   on every tape reachable by edits *)
+Theorem C13_traversal_reflects_edits : forall pj ds,
+  N.of_nat (length (pj_msg pj)) < two64 -> N.of_nat (length (pj_strings pj)) < two64 ->
+  tape_ok pj -> denote (pj_msg pj) (pj_strings pj) (pj_tape pj) = Some ds -> walk_doc pj = Ok ds.
+Proof. exact walk_doc_tape_ok. Qed.
+Definition C13_edits_preserve_tape_ok := edits_preserve_tape_ok.
+
 Theorem C13_tie_stringbuf : gen.Consts.gen_STRINGBUFBIT = STRINGBUFBIT.
 Proof. destruct tie_word_layout as (_ & _ & C & _). exact C. Qed.
-Print Assumptions C13_tie_tags.
+
+Print Assumptions C13_set_float_refines.
+Print Assumptions C13_set_string_refines.
+Print Assumptions C13_set_null_refines.
+Print Assumptions C13_traversal_reflects_edits.
+Print Assumptions C13_edits_preserve_tape_ok.
